@@ -22,7 +22,7 @@ ASSUMPTIONS = [
     "homogeneous families only: NodeMixin-based and LightNodeMixin-based universes are never mixed (cross-family attaches raise AttributeError; the statement quantifies over each family)",
     "non-node arguments are generated for NodeMixin-based classes only (the statement prescribes TreeError only there)",
 ]
-CLASS_SPECS = ["HNM", "HLM", "Node", "AnyNode", "SymlinkNode", "PlainNM", "SlotLM", "DictLM", ["Node", "AnyNode", "SymlinkNode", "PlainNM"], ["SlotLM", "DictLM"]]
+CLASS_SPECS = ["HNM", "HLM", "Node", "AnyNode", "SymlinkNode", "PlainNM", "SlotLM", "DictLM", ["Node", "AnyNode", "SymlinkNode", "PlainNM"], ["SlotLM", "DictLM"], ["Node", "SymlinkNodeU"], ["AnyNode", "SymlinkNodeU", "SymlinkNodeU"], "HEqNM", "HEqLM"]
 CTORS = {"Node": lambda **kw: Node("new", **kw), "AnyNode": lambda **kw: AnyNode(name="new", **kw), "SymlinkNode": lambda **kw: SymlinkNode(Node("t"), **kw)}
 
 
@@ -159,7 +159,7 @@ def plan(tier, seed):
     sizes = [1, 2, 3, 4] if tier == "quick" else [1, 2, 3, 4, 5]
     for n in sizes:
         shards = 1 if n < 3 else (nshards if n == 3 else nshards * 4)
-        for spec in ("HNM", "SlotLM") if n >= 4 else ("HNM", "HLM", "Node", "SlotLM"):
+        for spec in ("HNM", "SlotLM") if n >= 4 else ("HNM", "HLM", "Node", "SlotLM", ["Node", "SymlinkNodeU"], "HEqLM"):
             for i in range(shards):
                 routes = ["parent"] if (n == 4 and tier == "quick") or n == 5 else None
                 tasks.append({"engine": "enum", "n": n, "spec": spec, "index": i, "count": shards, "maxlen": None if n <= 4 else 2, "routes": routes})
